@@ -176,6 +176,8 @@ def gen_cases(tier, seed):
     # before it in the same process (one fresh interpreter per first system)
     for first in SEQ_SYSTEMS:
         keys.append(dict(part="sequence", first=first))
+    for sysname in SEQ_SYSTEMS:
+        keys.append(dict(part="opsedit", system=sysname))
     # default worker count: every answer of the environment for the CPU affinity
     for cpus in (1, 2, 3, 5, 16, 64):
         keys.append(dict(part="default_workers", cpus=cpus, N=3))
@@ -333,7 +335,47 @@ def run_large(key):
     return res
 
 
+def run_opsedit(key):
+    """The caller fetches the symmetry operators through the public function, edits the list
+    and its arrays in place (they were handed over as the caller's own), and computes the
+    index again: same value (seed C14h: the operator table served from a cache)."""
+    res = empty_result()
+    g, d, s = mods()
+    sysname = key["system"]
+    A = SETS["random"](12)
+    before = mindex(A, sysname)
+    res["n"] = 3
+    res["states"] = 2
+    res["clauses"]["operators_owned_by_caller"] = 1
+    try:
+        ops = g.symmetry_operations(getattr(g.LatticeSystem, sysname))
+        for o in ops:
+            try:
+                arr = np.asarray(o)
+                if isinstance(o, np.ndarray) and o.flags.writeable:
+                    o[...] = np.roll(arr, 1, axis=-1) * 0.5
+            except Exception:
+                pass
+        try:
+            del ops[1:]
+        except Exception:
+            pass
+    except Exception as e:
+        res["notes"]["symmetry_operations_raised:" + type(e).__name__] = 1
+    after = mindex(A, sysname)
+    same = (after == before) or (np.isnan(after) and np.isnan(before))
+    if not same:
+        V(res, key, "operators_owned_by_caller", {"M_before": before, "M_after_caller_edited_the_returned_list": after})
+    res["nontrivial"].append(digest(key))
+    res["outcomes"].append(digest(before))
+    res["obs"] = digest(before, after)
+    res["sample"] = {"case": key, "M": before}
+    return res
+
+
 def run_case(key):
+    if key["part"] == "opsedit":
+        return run_opsedit(key)
     if key["part"] == "sequence":
         return run_sequence(key)
     if key["part"] == "large":
